@@ -416,6 +416,14 @@ func (env *Env) call(n *ast.CallExpr) Term {
 			c.inOld = true
 			// names bound to loop-carried values are NOT rewound; parameters are immutable in SSA
 			return c.ev(n.Args[0])
+		case "cur":
+			// current value of a reassigned parameter (a bare parameter name denotes its entry value)
+			if id2, ok := n.Args[0].(*ast.Ident); ok && env.e != nil && env.e.top {
+				if t, ok := env.e.resolveLocal(id2.Name, env.at, env.heap); ok {
+					return t
+				}
+			}
+			cfail("cur(x): x must be a parameter or local of the function under verification")
 		case "len":
 			v := env.ev(n.Args[0])
 			switch v.Sort {
